@@ -54,17 +54,31 @@ where
 #[derive(Copy, Clone, Debug)]
 pub(super) struct Minimums {
     positive: DepthFirstNumber,
+
+    /// Set when `should_continue` returned false somewhere below this goal:
+    /// the result is then only an approximation and must not be cached.
+    interrupted: bool,
 }
 
 impl Minimums {
     pub fn new() -> Self {
         Minimums {
             positive: DepthFirstNumber::MAX,
+            interrupted: false,
         }
     }
 
     pub fn update_from(&mut self, minimums: Minimums) {
         self.positive = ::std::cmp::min(self.positive, minimums.positive);
+        self.interrupted |= minimums.interrupted;
+    }
+
+    pub fn update_interrupted_from(&mut self, minimums: Minimums) {
+        self.interrupted |= minimums.interrupted;
+    }
+
+    pub fn flag_interrupted(&mut self) {
+        self.interrupted = true;
     }
 }
 
@@ -182,7 +196,10 @@ where
             // cache now. This is a sort of hack to alleviate the
             // worst of the repeated work that we do during tabling.
             if subgoal_minimums.positive >= dfn {
-                if let Some(cache) = &mut self.cache {
+                if subgoal_minimums.interrupted {
+                    debug!("solve_reduced_goal: SCC head encountered, rolling back as solving was interrupted");
+                    self.search_graph.rollback_to(dfn);
+                } else if let Some(cache) = &mut self.cache {
                     self.search_graph.move_to_cache(dfn, cache);
                     debug!("solve_reduced_goal: SCC head encountered, moving to cache");
                 } else {
